@@ -34,7 +34,7 @@ with open('/verif/seeded/REFACTORS.md', 'w') as f:
     f.write('# Behaviour-preserving refactorings from independent sub-agents\n\n')
     f.write('Each edit was validated (the seed\'s demo prints the same digest on the clean and the patched tree; the pinned suite is unchanged). A report (exit 1) or an '
             'ANALYSIS-ERROR (exit 2) on one of them is a defect of the checker, corrected in the machinery (DESIGN sections 8 and 12). '
-            '`first evaluation`: the checks as they stood before the wave was looked at (wave 2: /verif commit d8c005c; wave 3: a29f6c4); `now`: the committed checks.\n\n')
+            '`first evaluation`: the checks as they stood before the wave was looked at (wave 2: /verif commit d8c005c; wave 3: 37eed7a); `now`: the committed checks.\n\n')
     for wave, title in (('refactor', 'First wave'), ('refactor2', 'Second wave'), ('refactor3', 'Third wave')):
         rs = []
         for d in sorted(glob.glob('/verif/seeded/C*')):
